@@ -100,14 +100,6 @@ theorem merge_comm_disjoint (specs : List Spec) (cap : Nat) (c : Cells) (x y : A
 
 /-! ## 2. partition invariance -/
 
-/-- the observable content of the root's aggregator equals the naive aggregate over ALL data -/
-structure IsNaive (sp0 : List Spec) (cap : Nat) (its : List TS) (A : Agg) : Prop where
-  cap_eq : A.cap = cap
-  specs_equiv : SpecEquiv A.specs sp0
-  cells_eq : A.cells = naiveCells sp0 cap its
-  keys_iff : ∀ t, t ∈ A.keys ↔ NaiveGroup its t
-  touched_iff : ∀ t f, A.touched t f = true ↔ NaiveTouched sp0 its t f
-
 /-- **partition_invariance** (leaves answer the root directly).
 `its` = the per-series grouped results of the whole cluster (what C11 delivers). Take ANY
 placement of them on leaf nodes (`leavesOf ns`, each leaf reducing its share in any order
@@ -155,17 +147,170 @@ theorem partition_invariance (sp0 : List Spec) (cap : Nat) (hs : Simple sp0) (it
         simp [List.flatMap_cons, List.flatMap_map]
       rw [hflat]
       have he : SpecEquiv (leafPayload .code L.specs cap L.its).specs sp0 := (hOK' L List.mem_cons_self).equiv
-      constructor
-      · rw [aggregateAll_cap]; rfl
-      · rw [aggregateAll_specs]; exact he
-      · funext t f k s
-        rw [show (leafPayload .code L.specs cap L.its).cap = cap from rfl,
-          cells_of_leaves sp0 _ hs he cap (L :: Ls) hOK' t f k s, naiveCells_perm sp0 hs cap hp']
-      · intro t
-        rw [show (leafPayload .code L.specs cap L.its).cap = cap from rfl,
-          keys_of_leaves sp0 _ cap (L :: Ls) hOK' t, naiveGroup_perm hp']
-      · intro t f
-        rw [show (leafPayload .code L.specs cap L.its).cap = cap from rfl,
-          touched_of_leaves sp0 _ hs he cap (L :: Ls) hOK' t f, naiveTouched_perm sp0 hp']
+      rw [← srcsOf_emit sp0 cap (L :: Ls) hOK']
+      have hn := isNaive_of_sources sp0 _ hs he cap (srcsOf sp0 cap (L :: Ls) hOK')
+      rw [srcsOf_its] at hn
+      have hcap : (leafPayload .code L.specs cap L.its).cap = cap := rfl
+      rw [hcap]
+      exact ⟨hn.cap_eq, hn.specs_equiv, by rw [hn.cells_eq, naiveCells_perm sp0 hs cap hp'],
+        fun t => by rw [hn.keys_iff, naiveGroup_perm hp'],
+        fun t f => by rw [hn.touched_iff, naiveTouched_perm sp0 hp']⟩
+
+/-! ## 3. not-found tolerance and nodes without data -/
+
+/-- **notfound_tolerance**, stated outright (both variants, no hypothesis on specs): if no response
+is a failure and at least one response is not a not-found, the context completes, the outcome is
+not an error, and the data part (aggregator, time range, specs) is exactly what handling the found
+responses alone — with a plan that has only those targets — produces. -/
+theorem notfound_tolerance (v : Variant) (rs : List Resp)
+    (hf : ∀ r ∈ rs, isFailure r = false) (hex : ∃ r ∈ rs, r ≠ .notFound) :
+    let c := (Ctx.new rs.length).handleAll v rs
+    let found := rs.filter (fun r => r != .notFound)
+    let c' := (Ctx.new found.length).handleAll v found
+    c.done = true ∧ c.err = none ∧ c'.done = true ∧ c'.err = none ∧ c.data = c'.data := by
+  intro c found c'
+  have hne : rs ≠ [] := by rintro rfl; obtain ⟨r, hr, -⟩ := hex; cases hr
+  have hfound_ne : found ≠ [] := by
+    obtain ⟨r, hr, hn⟩ := hex
+    intro h
+    have : r ∈ found := List.mem_filter.mpr ⟨hr, by simpa using hn⟩
+    rw [h] at this; cases this
+  have hlt := countNF_lt_of_exists rs hex
+  refine ⟨?_, ?_, ?_, ?_, ?_⟩
+  · exact handleAll_done v _ rs hne (by simp [Ctx.new])
+  · exact (handleAll_err_none v _ rs hf rfl (by simp only [Ctx.new]; omega)).1
+  · exact handleAll_done v _ found hfound_ne (by simp [Ctx.new])
+  · refine (handleAll_err_none v _ found (fun r hr => hf r (List.mem_filter.mp hr).1) rfl ?_).1
+    rw [countNF_filter_ne]
+    have : 0 < found.length := List.length_pos_of_ne_nil hfound_ne
+    simp only [Ctx.new]; omega
+  · exact handleAll_data_filter v _ _ rs rfl
+
+/-- the other half of `checkError`: when EVERY target answers not-found the query fails with
+that error. -/
+theorem all_notfound_is_error (v : Variant) (n : Nat) :
+    let c := (Ctx.new (n + 1)).handleAll v (List.replicate (n + 1) .notFound)
+    c.done = true ∧ c.err = some .notFound := by
+  intro c
+  refine ⟨?_, handleAll_allNotFound v n _ rfl rfl⟩
+  exact handleAll_done v _ _ (by simp) (by simp [Ctx.new])
+
+/-- a failing response (any other error message, or an undecodable payload) makes the query fail
+whatever arrives before or after it -/
+theorem failure_is_error (v : Variant) (c : Ctx) (r : Resp) (rs : List Resp) (hr : isFailure r = true) :
+    ((c.handle v r).handleAll v rs).err.isSome = true ∧ (c.handle v r).done = true := by
+  have h0 : (c.handle v r).err.isSome = true ∧ (c.handle v r).done = true := by
+    cases r with
+    | ok p => cases hr
+    | notFound => cases hr
+    | error => simp [Ctx.handle, Ctx.absorb]
+    | bad => simp [Ctx.handle, Ctx.absorb]
+  refine ⟨?_, h0.2⟩
+  generalize c.handle v r = c1 at h0
+  induction rs generalizing c1 with
+  | nil => exact h0.1
+  | cons x xs ih =>
+    rw [handleAll_cons]
+    exact ih _ ⟨handle_err_isSome v c1 x h0.1, handle_done_mono v c1 x h0.2⟩
+
+/-- **a node that holds no matching data never turns a non-empty answer into an error or an
+empty answer**: take a schedule `ns` as in `partition_invariance` and add any number of nodes
+that answer not-found and of leaves that know the metric but have no series for the query
+(`its = []`), at ANY positions (`ns'` is any permutation of `ns ++ extra`): the root still
+completes without error with the naive aggregate of all data. -/
+theorem empty_node_harmless (sp0 : List Spec) (cap : Nat) (hs : Simple sp0) (its : List TS)
+    (ns extra ns' : List Node) (hOK : ∀ L ∈ leavesOf ns, L.OK sp0) (hne : leavesOf ns ≠ [])
+    (hpart : ((leavesOf ns).flatMap (·.its)).Perm its)
+    (hextra : ∀ L ∈ leavesOf extra, L.OK sp0 ∧ L.its = [])
+    (hperm : ns'.Perm (ns ++ extra)) :
+    let c := (Ctx.new ns'.length).handleAll .code (ns'.map (Node.resp cap))
+    c.done = true ∧ c.err = none ∧ ∃ A, c.agg = some A ∧ IsNaive sp0 cap its A := by
+  have hl : (leavesOf ns').Perm (leavesOf ns ++ leavesOf extra) := by
+    have := leavesOf_perm hperm
+    simpa [leavesOf, List.filterMap_append] using this
+  have hOK' : ∀ L ∈ leavesOf ns', L.OK sp0 := by
+    intro L hL
+    rcases List.mem_append.mp (hl.mem_iff.mp hL) with h | h
+    · exact hOK L h
+    · exact (hextra L h).1
+  have hne' : leavesOf ns' ≠ [] := by
+    intro h
+    rw [h] at hl
+    have := hl.length_eq
+    have hpos : 0 < (leavesOf ns).length := List.length_pos_of_ne_nil hne
+    simp at this; omega
+  have hzero : (leavesOf extra).flatMap (·.its) = [] := by
+    apply List.flatMap_eq_nil_iff.mpr
+    intro L hL; exact (hextra L hL).2
+  have hp' : ((leavesOf ns').flatMap (·.its)).Perm its := by
+    refine (hl.flatMap_right _).trans ?_
+    rw [List.flatMap_append, hzero, List.append_nil]; exact hpart
+  obtain ⟨h1, h2, -, h4⟩ := partition_invariance sp0 cap hs its ns' hOK' hne' hp'
+  exact ⟨h1, h2, h4⟩
+
+/-! ## 4. the answer is a function of the data -/
+
+theorem evalItem_congr (A B : Agg) (hcap : A.cap = B.cap) (hcells : A.cells = B.cells)
+    (ht : A.touched = B.touched) (hv : SpecEquiv A.specs B.specs) (pc t : Nat) (it : SelItem) :
+    A.evalItem pc t it = B.evalItem pc t it := by
+  have hview := hv it.field
+  unfold specView at hview
+  unfold Agg.evalItem
+  cases hA : A.specs.find? (fun sp => sp.name == it.field) with
+  | none =>
+    rw [hA] at hview
+    cases hB : B.specs.find? (fun sp => sp.name == it.field) with
+    | none => rfl
+    | some spB => rw [hB] at hview; cases hview
+  | some spA =>
+    rw [hA] at hview
+    cases hB : B.specs.find? (fun sp => sp.name == it.field) with
+    | none => rw [hB] at hview; cases hview
+    | some spB =>
+      rw [hB] at hview
+      simp only [Option.map_some, Option.some.injEq, Prod.mk.injEq] at hview
+      have hnA : spA.name = it.field := by simpa using List.find?_some hA
+      have hnB : spB.name = it.field := by simpa using List.find?_some hB
+      simp only [hview.1, hview.2, hnA, hnB, ht, Agg.points, hcells, hcap]
+
+/-- two aggregators that are naive for the same data answer every query identically -/
+theorem rows_of_naive (sp0 : List Spec) (cap : Nat) (its : List TS) (A B : Agg)
+    (hA : IsNaive sp0 cap its A) (hB : IsNaive sp0 cap its B)
+    (pc : Nat) (items : List SelItem) (ords : List OrdItem) (limit : Nat) (order : List Tag) :
+    A.resultRows pc items ords limit order = B.resultRows pc items ords limit order := by
+  have hrow : ∀ t, A.row pc items t = B.row pc items t := by
+    intro t
+    unfold Agg.row
+    congr 1
+    apply List.map_congr_left
+    intro it _
+    apply evalItem_congr
+    · rw [hA.cap_eq, hB.cap_eq]
+    · rw [hA.cells_eq, hB.cells_eq]
+    · funext t f
+      rw [Bool.eq_iff_iff, hA.touched_iff, hB.touched_iff]
+    · exact hA.specs_equiv.trans hB.specs_equiv.symm
+  have : A.row pc items = B.row pc items := funext hrow
+  unfold Agg.resultRows
+  rw [this]
+
+/-- **layout independence of the outcome**: two layouts + delivery schedules of the same data
+(under the hypotheses of `partition_invariance`) give the same `WaitResponse` outcome for every
+select list, order-by, limit (for the same iteration order of the group map; see section 5 for
+why that order does not matter without ties). -/
+theorem layout_independence (sp0 : List Spec) (cap : Nat) (hs : Simple sp0) (its : List TS)
+    (ns1 ns2 : List Node)
+    (hOK1 : ∀ L ∈ leavesOf ns1, L.OK sp0) (hne1 : leavesOf ns1 ≠ [])
+    (hp1 : ((leavesOf ns1).flatMap (·.its)).Perm its)
+    (hOK2 : ∀ L ∈ leavesOf ns2, L.OK sp0) (hne2 : leavesOf ns2 ≠ [])
+    (hp2 : ((leavesOf ns2).flatMap (·.its)).Perm its)
+    (items : List SelItem) (ords : List OrdItem) (limit : Nat) (order : List Tag) :
+    ((Ctx.new ns1.length).handleAll .code (ns1.map (Node.resp cap))).outcome items ords limit order =
+    ((Ctx.new ns2.length).handleAll .code (ns2.map (Node.resp cap))).outcome items ords limit order := by
+  obtain ⟨d1, e1, c1, A1, a1, n1⟩ := partition_invariance sp0 cap hs its ns1 hOK1 hne1 hp1
+  obtain ⟨d2, e2, c2, A2, a2, n2⟩ := partition_invariance sp0 cap hs its ns2 hOK2 hne2 hp2
+  unfold Ctx.outcome
+  simp only [d1, d2, e1, e2, a1, a2, c1, c2, Bool.not_true, Bool.false_eq_true, if_false]
+  rw [rows_of_naive sp0 cap its A1 A2 n1 n2]
 
 end LinVerif.Props.C12
